@@ -144,6 +144,40 @@ macro_rules! both {
     };
 }
 
+/// Deserialise a JSON array both from the in-memory value (its `SeqAccess` announces the length)
+/// and from its text (the streaming reader announces none). Both are the same public `Deserialize`
+/// impl; the outcome must not depend on which one the caller used.
+fn de_two_ways<T: Kind + DeserializeOwned, N: Unsigned, U: UpdateMap<T> + PartialEq>(
+    coll: &str,
+    arr: serde_json::Value,
+) -> Option<Result<Handle<T, N, U>, String>> {
+    let text = serde_json::to_string(&arr).expect("array serialises");
+    let (a, b) = match coll {
+        "list" => (
+            serde_json::from_value::<List<T, N, U>>(arr).map(Handle::L).ok(),
+            serde_json::from_str::<List<T, N, U>>(&text).map(Handle::L).ok(),
+        ),
+        "vec" => (
+            serde_json::from_value::<Vector<T, N, U>>(arr).map(Handle::V).ok(),
+            serde_json::from_str::<Vector<T, N, U>>(&text).map(Handle::V).ok(),
+        ),
+        _ => return None,
+    };
+    Some(match (a, b) {
+        (Some(a), Some(b)) => {
+            let va: Vec<T> = both!(&a, x => x.iter().cloned().collect());
+            let vb: Vec<T> = both!(&b, x => x.iter().cloned().collect());
+            if va == vb {
+                Ok(a)
+            } else {
+                Err("err serde-paths-differ".to_string())
+            }
+        }
+        (None, None) => Err("err serde".to_string()),
+        _ => Err("err serde-paths-differ".to_string()),
+    })
+}
+
 fn pd<T: Kind>() -> usize {
     milhouse::utils::opt_packing_depth::<T>().unwrap_or(0)
 }
@@ -681,17 +715,12 @@ impl<'s, T: Kind, N: Unsigned + Send + Sync, U: UpdateMap<T> + PartialEq + Send 
                         .map(|v| serde_json::to_value(v).expect("element serialises"))
                         .collect(),
                 );
-                let r = match *w.get(2)? {
-                    "list" => serde_json::from_value::<List<T, N, U>>(arr).map(Handle::L),
-                    "vec" => serde_json::from_value::<Vector<T, N, U>>(arr).map(Handle::V),
-                    _ => return None,
-                };
-                match r {
+                match de_two_ways::<T, N, U>(w.get(2)?, arr)? {
                     Ok(c) => {
                         self.colls.insert(h, c);
                         "ok".to_string()
                     }
-                    Err(_) => "err serde".to_string(),
+                    Err(e) => e,
                 }
             }
             "pushnodes" => {
@@ -756,17 +785,12 @@ impl<'s, T: Kind, N: Unsigned + Send + Sync, U: UpdateMap<T> + PartialEq + Send 
                         .map(|v| serde_json::to_value(v).expect("element serialises"))
                         .collect(),
                 );
-                let r = match *w.get(2)? {
-                    "list" => serde_json::from_value::<List<T, N, U>>(arr).map(Handle::L),
-                    "vec" => serde_json::from_value::<Vector<T, N, U>>(arr).map(Handle::V),
-                    _ => return None,
-                };
-                match r {
+                match de_two_ways::<T, N, U>(w.get(2)?, arr)? {
                     Ok(c) => {
                         self.colls.insert(h, c);
                         "ok".to_string()
                     }
-                    Err(_) => "err serde".to_string(),
+                    Err(e) => e,
                 }
             }
             "dump" => {
@@ -1042,6 +1066,9 @@ fn make_runner(kind: &str, n: &str, m: &str) -> Option<Box<dyn Runner>> {
         // tree depth exactly 48: the last level covered by the ZERO_HASHES table
         ("u64", "1125899906842624", m) => maps!(u64, U1125899906842624, m),
         ("h256", "281474976710656", m) => maps!(Hash256, U281474976710656, m),
+        // large enough to hold several full level-16 subtrees (pop_front at n = k * 65536)
+        ("u64", "1048576", m) => maps!(u64, U1048576, m),
+        ("h256", "1048576", m) => maps!(Hash256, U1048576, m),
         _ => None,
     }
 }
